@@ -5,6 +5,10 @@ Program language (JSON):  ['int', z] ['bool', b] ['bin', op, P, P] ['un', op, P]
   ['share', py, P1, P2] (python-level `py = P1; P2`: the SAME object is used wherever ['use', py] appears)  ['use', py]
   ['bind', x, P1, P2]  ['var', x, type]  ['struct', [[f, P]..]]  ['field', f, P]  ['array', [P..]]  ['len', P]
   ['map', x, Parr, Pbody]  ['filter', x, Parr, Pbody]  ['fold', acc, x, Parr, Pzero, Pbody]  ['idx', Parr, Pint]
+  mode 'agg' only (hail.ir nodes; scan = is_scan):  ['tagg', Q] TableAggregate(TableRange, Q)   ['tscan', [[f, Q]..]] TableMapRows(
+  TableRange, InsertFields(row, ..))   ['aggop', scan, op, [Pinit..], [Pseq..]] ApplyAggOp / ApplyScanOp   ['aggfilter', scan, Pcond, Q]
+  ['agggroupby', scan, Pkey, Q]  ['aggexplode', scan, x, Parr, Q]  ['aggarrayper', scan, elt, idx, Parr, Q]  ['agglet', scan, x, P, Q]
+  ['cast64', P]  ['tuple', [Q..]]  ['streamagg', x, Parr, Q] StreamAgg(ToStream(Parr), x, Q)  ['streamaggscan', x, Parr, Q]
   bin ops: + - * // %   (API mode: python operators on int32 expressions; `a[i]` is Apply indexArray; IR mode: ArrayRef)
 types: 'int' | 'bool' | ['array', t] | ['struct', [[f, t]..]]
 """
@@ -122,6 +126,33 @@ def build_ir(p, py):
         return ir.ToArray(ir.StreamFilter(ir.ToStream(build_ir(p[2], py)), p[1], build_ir(p[3], py)))
     if k == 'fold':
         return ir.StreamFold(ir.ToStream(build_ir(p[3], py)), build_ir(p[4], py), p[1], p[2], build_ir(p[5], py))
+    # ---- aggregation / scan contexts (mode 'agg'; `scan` = is_scan flag)
+    if k == 'aggop':
+        cls = ir.ApplyScanOp if p[1] else ir.ApplyAggOp
+        return cls(p[2], [build_ir(q, py) for q in p[3]], [build_ir(q, py) for q in p[4]])
+    if k == 'aggfilter':
+        return ir.AggFilter(build_ir(p[2], py), build_ir(p[3], py), bool(p[1]))
+    if k == 'agggroupby':
+        return ir.AggGroupBy(build_ir(p[2], py), build_ir(p[3], py), bool(p[1]))
+    if k == 'aggexplode':
+        return ir.AggExplode(ir.ToStream(build_ir(p[3], py)), p[2], build_ir(p[4], py), bool(p[1]))
+    if k == 'aggarrayper':
+        return ir.AggArrayPerElement(build_ir(p[4], py), p[2], p[3], build_ir(p[5], py), bool(p[1]))
+    if k == 'agglet':
+        return ir.AggLet(p[2], build_ir(p[3], py), build_ir(p[4], py), bool(p[1]))
+    if k == 'cast64':
+        return ir.Cast(build_ir(p[1], py), hl.tint64)
+    if k == 'tuple':
+        return ir.MakeTuple([build_ir(q, py) for q in p[1]])
+    if k == 'streamagg':
+        return ir.StreamAgg(ir.ToStream(build_ir(p[2], py)), p[1], build_ir(p[3], py))
+    if k == 'streamaggscan':
+        return ir.ToArray(ir.StreamAggScan(ir.ToStream(build_ir(p[2], py)), p[1], build_ir(p[3], py)))
+    if k == 'tagg':
+        return ir.TableAggregate(ir.TableRange(10, 1), build_ir(p[1], py))
+    if k == 'tscan':
+        row = ir.Ref('row', hl.tstruct(idx=hl.tint32))
+        return ir.TableMapRows(ir.TableRange(10, 1), ir.InsertFields(row, [(f, build_ir(q, py)) for f, q in p[1]], None))
     raise ValueError(f'unknown program node {k}')
 
 
@@ -196,7 +227,36 @@ def export(root):
     return {'root': r, 'nodes': nodes}
 
 
+def run_agg_case(c):
+    """mode 'agg': aggregation / scan programs (TableAggregate / TableMapRows roots).  Outside the Coq model: only the plain
+    rendering (= the inlined IR) and the CSE rendering of the SAME object graph are returned."""
+    out = {'agg': True}
+    try:
+        root = build_ir(c['prog'], {})
+        out['plain'] = str(root)
+        n_obj, n_tree = set(), [0]
+
+        def count(x):
+            n_tree[0] += 1
+            n_obj.add(id(x))
+            for ch in x.children:
+                count(ch)
+        count(root)
+        out['objects'], out['tree_size'] = len(n_obj), n_tree[0]
+    except Exception as ex:  # noqa: BLE001  building failed: generator/harness problem, reported as such
+        return {'agg': True, 'build_exc': f'{type(ex).__name__}: {ex}', 'tb': traceback.format_exc()[-1500:]}
+    try:
+        out['cse'] = CSERenderer()(root)
+    except BaseException as ex:  # noqa: BLE001
+        tb = traceback.extract_tb(ex.__traceback__)
+        last = tb[-1]
+        out['cse_exc'] = {'type': type(ex).__name__, 'msg': str(ex)[:200], 'where': f'{last.name}:{last.line}'}
+    return out
+
+
 def run_case(c):
+    if c['mode'] == 'agg':
+        return run_agg_case(c)
     out = {}
     try:
         if c['mode'] == 'api':
